@@ -81,4 +81,91 @@ example :
     (writeMessage s0 2 [9, 9, 9, 9, 9]).2.wire = [130, 5, 9] ∧ (writeMessage s0 2 [9, 9, 9, 9, 9]).2.writeErr = some (.transport 7) := by
   decide
 
+/-! ### non-vacuity -/
+section NonVacuity
+set_option linter.defProp false
+
+
+/-- a client connection, write buffer 4096, two masking keys, and a fault script: the 4th transport
+    call (the Write of the second frame) accepts 3 bytes and then fails with error 7 -/
+def witF : W := { newW false 4096 false false with keys := [0x37, 0xfa, 0x21, 0x3d, 1, 2, 3, 4], faults := [(3, .short 3 7)] }
+
+/-- witness for `wire_frames_then_partial`: the constructor state is `Fresh` -/
+def witF_fresh : Fresh witF := ⟨rfl, rfl, rfl, rfl, rfl, by decide, by decide⟩
+
+/-- WriteControl(ping "hi"); NextWriter(text); Write "Hello"; Close — hits the fault; WriteMessage(binary);
+    WriteControl(pong) -/
+def witFOps : List Op :=
+  [.writeControl 9 [104, 105] 0, .nextWriter 1 [] [], .write 0 [72, 101, 108, 108, 111] [] false,
+   .close 0 [] [], .writeMessage 2 [1, 2, 3] [] [] [] [], .writeControl 10 [104, 105] 0]
+
+/-- witness for `wire_frames_then_partial`: every operation satisfies the size conditions -/
+def witFOps_ok : ∀ op ∈ witFOps, OpOK witF.isServer op := by
+  intro op h
+  simp [witFOps] at h
+  rcases h with rfl | rfl | rfl | rfl | rfl | rfl <;> simp [OpOK]
+
+/-- non-vacuity of `wire_frames_then_partial`: all hypotheses hold for a client (buffer 4096) with a short
+    write at the 4th transport call running a six-operation program, and the theorem applies -/
+example : Decomposes false (run witF witFOps).wire ((run witF witFOps).writeErr.isNone) :=
+  wire_frames_then_partial witF witF_fresh witFOps witFOps_ok
+
+/-- … and on that run (witness of `wire_frames_then_partial`) the wire is the whole ping frame followed by 3 bytes of the text frame; the error is sticky -/
+example : (run witF witFOps).wire = [137, 130, 55, 250, 33, 61, 95, 147, 129, 133, 1] ∧
+    (run witF witFOps).writeErr = some (.transport 7) := by decide +kernel
+
+/-- the connection after the failed Close: sticky error set, a partial frame on the wire -/
+def witFailed : W := run witF (witFOps.take 4)
+
+/-- witness for `fault_failstop`, `later_writes_fail`: the sticky error is set -/
+def witFailed_err : witFailed.writeErr.isSome := by decide +kernel
+
+/-- non-vacuity of `fault_failstop`: the hypothesis holds for the failed client, and the theorem applies to
+    a program of three further operations -/
+example : (run witFailed (witFOps.drop 3)).wire = witFailed.wire ∧ (run witFailed (witFOps.drop 3)).tcalls = witFailed.tcalls ∧
+    (run witFailed (witFOps.drop 3)).writeErr = witFailed.writeErr :=
+  fault_failstop witFailed (witFOps.drop 3) witFailed_err
+
+/-- non-vacuity of `later_writes_fail`: the hypothesis holds for the failed client, and the theorem applies
+    (e.g. a later WriteMessage fails) -/
+example : (writeMessage witFailed 2 [1, 2, 3] [] [] [] []).1.isSome :=
+  (later_writes_fail witFailed witFailed_err).2.1 2 [1, 2, 3] [] [] [] []
+
+/-- a healthy client with a text message writer open (3 bytes buffered) -/
+def witOpen : W := run { witF with faults := [] } (witFOps.take 3)
+
+/-- … it really has writer 0 open and no error (state used for `invalid_type_request_harmless`) -/
+example : witOpen.writer = some 0 ∧ witOpen.writeErr = none := by decide +kernel
+
+/-- instances of `invalid_control_request_harmless` (no hypotheses; both premises of its conclusion are
+    satisfiable): WriteControl with a data type, and with a 126-byte ping -/
+example : writeControl witOpen 1 [104, 105] 0 = (some .badOpcode, witOpen) :=
+  (invalid_control_request_harmless witOpen 1 [104, 105] 0).1 (by decide)
+/-- instance of `invalid_control_request_harmless`: a 126-byte ping is refused, nothing changes -/
+example : writeControl witOpen 9 (List.replicate 126 0) 0 = (some .invalidControl, witOpen) :=
+  (invalid_control_request_harmless witOpen 9 (List.replicate 126 0) 0).2 (by decide) (by rw [List.length_replicate]; decide)
+
+/-- non-vacuity of `invalid_type_request_harmless`: message type 7 is neither control nor data; applied to
+    the client with an open writer -/
+example :
+    (nextWriter witOpen 7 [] []).1 = .error .badOpcode ∧ (nextWriter witOpen 7 [] []).2 = closePrev witOpen [] [] ∧
+    (writeMessage witOpen 7 [1, 2, 3] [] [] [] []).1 = some .badOpcode ∧
+    (writeMessage witOpen 7 [1, 2, 3] [] [] [] []).2 = closePrev witOpen [] [] :=
+  invalid_type_request_harmless witOpen 7 [1, 2, 3] [] [] [] [] (by decide)
+
+/-- a ping message writer holding 100 bytes -/
+def witPingMW : MW := { ft := 9, buf := List.replicate 100 0 }
+
+/-- non-vacuity of `fragmented_control_harmless` (payload too long: 100 buffered + 30 extra > 125) -/
+example : (flushFrame witOpen witPingMW true (List.replicate 30 0)).1 = some .invalidControl ∧
+    (flushFrame witOpen witPingMW true (List.replicate 30 0)).2.1.core = witOpen.core :=
+  fragmented_control_harmless witOpen witPingMW true (List.replicate 30 0) (by decide) (Or.inr (by decide))
+
+/-- non-vacuity of `fragmented_control_harmless` (a non-final control frame) -/
+example : (flushFrame witOpen witPingMW false []).1 = some .invalidControl ∧
+    (flushFrame witOpen witPingMW false []).2.1.core = witOpen.core :=
+  fragmented_control_harmless witOpen witPingMW false [] (by decide) (Or.inl rfl)
+
+end NonVacuity
+
 end WS.Props.C10
